@@ -27,6 +27,10 @@ CHECKS = {
          "Seeded search: the four asyncio drivers on the virtual loop and the daliserver / ATX-hat clients against blocking fake peers; 1-3 callers issue every category of command; each query gets a seeded bus outcome (silent, a run-unique value, framing error), serial gateways may answer later than the documented timeout, other masters' query/answer traffic is interleaved; the oracle compares type and raw value of every returned response with the outcome the gateway model produced for that very transmission, so an answer handed to the wrong command is attributable. Sampling, not proof.",
          "Trusted base: gateway/peer models (DESIGN.md 2.5), no answer generated inside the 80-120 % ambiguity band of a timeout, runs in which a transmit confirmation is slower than 80 % of its timeout are set aside (C17 territory).",
          "deterministic simulation (virtual-time loop / blocking fake peers, seeded outcomes and latencies, per-transmission answer attribution)", "4"),
+ "C17": ("drvsim", "fault_enumeration",
+         "Fault enumeration over seeded base schedules: each base (driver, 1-3 callers, reconnect limit/interval, exceptions on/off) runs fault-free to count simulator events, then once per (fault kind, event index): hidraw EOF / EIO, write OSError at every write including the handshake writes, device back after a seeded delay with failing opens, second loss during the reconnect wait or during the handshake, plain cancel / own-timeout of the running op (a subset followed by 300 further sends so sequence numbers wrap); serial: confirmation lost or later than the timeout, answer lost, cancel. Oracles: outcome of every send (correct answer of its own transmission, CommunicationError, or cancelled), bounded completion, lock/semaphore/in-flight-slot state at quiescence, status callbacks against a reference model with virtual timestamps and the retry schedule, handshake before any SEND, fresh sends after recovery. Single-fault placements are enumerated for the sampled bases only (quick: strided).",
+         "Trusted base: gateway/hidraw presence models, reference model of DESIGN.md appendix C (the harness plays the application calling connect() again after 'failed' is due), documented serial timeouts taken literally.",
+         "deterministic simulation with fault injection at every simulator event index (virtual clock, reference model for connection status)", "4"),
 }
 
 PLANNED = {}
